@@ -402,7 +402,8 @@ async fn exchange_h1(v: &Vector, client: DuplexStream, wait: Duration) -> Obs {
 // HTTP/2 client (the `h2` crate) over an in-memory stream
 
 fn h2_request(v: &Vector, with_connection_headers: bool) -> Result<http::Request<()>, String> {
-    let mut b = http::Request::builder().method(v.method.as_str()).uri(format!("https://localhost{}", v.target));
+    // (a CONNECT target is in authority form)
+    let mut b = http::Request::builder().method(v.method.as_str()).uri(if v.method == "CONNECT" { v.target.clone() } else { format!("https://localhost{}", v.target) });
     for (n, val) in &v.headers {
         if !with_connection_headers && matches!(n.as_str(), "upgrade" | "connection") {
             continue;
@@ -1230,7 +1231,7 @@ fn main() {
             // (1) the routing table itself, on the real HttpDemux::select (all three listen protocols)
             if v.host == "main" {
                 let core = rt_paused.block_on(async { make_core(&v, None) });
-                let mut b = http::Request::builder().method(v.method.as_str()).uri(format!("https://localhost{}", v.target));
+                let mut b = http::Request::builder().method(v.method.as_str()).uri(if v.method == "CONNECT" { v.target.clone() } else { format!("https://localhost{}", v.target) });
                 for (n, val) in &v.headers {
                     b = b.header(n.as_str(), val.as_str());
                 }
